@@ -125,7 +125,7 @@ func (o options) set(name string, val interface{}) error {
 		}
 		return mangos.ErrBadValue
 	case mangos.OptionMaxRecvSize:
-		if v, ok := val.(int); ok {
+		if v, ok := val.(int); ok && v >= 0 {
 			o[name] = v
 			return nil
 		}
